@@ -213,16 +213,13 @@ Proof.
   - apply cut_reach_incl.
 Qed.
 
-(* ---- corollaries of sort_nd_correct ---- *)
+(* ---- consequences of being, front by front, a permutation of spec_sort (used for both procedures) ---- *)
 Section Corollaries.
   Variables (pop : list ind) (k : Z) (ffo : bool) (fs : list (list ind)).
   Hypothesis NDu : NoDup (map uid pop).
   Hypothesis SL : same_len (map iw pop).
   Hypothesis NE : pop <> [].
-  Hypothesis RES : sort_nd pop k ffo = Some fs.
-
-  Lemma res_perm : Forall2 (@Permutation ind) fs (spec_sort pop k ffo).
-  Proof. destruct (sort_nd_correct pop k ffo NDu SL NE) as [fs' [E F]]. rewrite RES in E. inversion E; subst. exact F. Qed.
+  Hypothesis res_perm : Forall2 (@Permutation ind) fs (spec_sort pop k ffo).
 
   Lemma forall2_in_l {A B} (R : A -> B -> Prop) l1 l2 a : Forall2 R l1 l2 -> In a l1 -> exists b, In b l2 /\ R a b.
   Proof. induction 1; intros []; subst; [eexists; split; [left; reflexivity|assumption]|]. destruct (IHForall2 H1) as [b [? ?]]. exists b; split; [right|]; assumption. Qed.
@@ -231,7 +228,7 @@ Section Corollaries.
   Proof. induction 1; cbn; [constructor|]. apply Permutation_app; assumption. Qed.
 
   (* every returned element is an input individual, each uid at most once over all fronts *)
-  Theorem nd_elements_are_inputs x : In x (concat fs) -> In x pop.
+  Theorem gen_elements_are_inputs x : In x (concat fs) -> In x pop.
   Proof.
     intro H. apply (Permutation_in _ (forall2_concat_perm _ _ res_perm)) in H.
     apply in_concat in H. destruct H as [F [HF Hx]]. apply spec_sort_incl in HF.
@@ -251,7 +248,7 @@ Section Corollaries.
     - cbn. rewrite app_nil_r. assumption.
   Qed.
 
-  Theorem nd_each_once : NoDup (map uid (concat fs)).
+  Theorem gen_each_once : NoDup (map uid (concat fs)).
   Proof.
     apply (Permutation_NoDup (l := map uid (concat (spec_sort pop k ffo)))).
     - apply Permutation_map, Permutation_sym, forall2_concat_perm, res_perm.
@@ -266,7 +263,7 @@ Section Corollaries.
 
   (* equal-fitness individuals share a front: a returned front contains every individual of the
      population whose fitness equals that of one of its members *)
-  Theorem nd_same_fitness_same_front F x y :
+  Theorem gen_same_fitness_same_front F x y :
     In F fs -> In x F -> In y pop -> iw x = iw y -> In y F.
   Proof.
     intros HF Hx Hy E. destruct (forall2_in_l _ _ _ F res_perm HF) as [G [HG P]].
@@ -274,7 +271,7 @@ Section Corollaries.
     apply (peel_same_fit _ pop G x y HG); [apply (Permutation_in _ P); assumption|assumption|assumption].
   Qed.
 
-  Theorem nd_fronts_nonempty : Forall (fun F => F <> []) fs.
+  Theorem gen_fronts_nonempty : Forall (fun F => F <> []) fs.
   Proof.
     apply Forall_forall. intros F HF E. destruct (forall2_in_l _ _ _ F res_perm HF) as [G [HG P]].
     subst F. apply Permutation_nil in P. subst G. apply spec_sort_incl in HG.
@@ -282,20 +279,47 @@ Section Corollaries.
   Qed.
 End Corollaries.
 
+Lemma nd_res_perm pop k ffo fs :
+  NoDup (map uid pop) -> same_len (map iw pop) -> pop <> [] -> sort_nd pop k ffo = Some fs ->
+  Forall2 (@Permutation ind) fs (spec_sort pop k ffo).
+Proof. intros NDu SL NE RES. destruct (sort_nd_correct pop k ffo NDu SL NE) as [fs' [E F]]. rewrite RES in E. inversion E; subst. exact F. Qed.
+
+Theorem nd_elements_are_inputs pop k ffo fs :
+  NoDup (map uid pop) -> same_len (map iw pop) -> pop <> [] -> sort_nd pop k ffo = Some fs ->
+  forall x, In x (concat fs) -> In x pop.
+Proof. intros NDu SL NE RES. apply (gen_elements_are_inputs pop k ffo fs). eapply nd_res_perm; eassumption. Qed.
+
+Theorem nd_each_once pop k ffo fs :
+  NoDup (map uid pop) -> same_len (map iw pop) -> pop <> [] -> sort_nd pop k ffo = Some fs ->
+  NoDup (map uid (concat fs)).
+Proof. intros NDu SL NE RES. apply (gen_each_once pop k ffo fs NDu SL). eapply nd_res_perm; eassumption. Qed.
+
+Theorem nd_same_fitness_same_front pop k ffo fs :
+  NoDup (map uid pop) -> same_len (map iw pop) -> pop <> [] -> sort_nd pop k ffo = Some fs ->
+  forall F x y, In F fs -> In x F -> In y pop -> iw x = iw y -> In y F.
+Proof. intros NDu SL NE RES. apply (gen_same_fitness_same_front pop k ffo fs). eapply nd_res_perm; eassumption. Qed.
+
+Theorem nd_fronts_nonempty pop k ffo fs :
+  NoDup (map uid pop) -> same_len (map iw pop) -> pop <> [] -> sort_nd pop k ffo = Some fs ->
+  Forall (fun F => F <> []) fs.
+Proof. intros NDu SL NE RES. apply (gen_fronts_nonempty pop k ffo fs SL). eapply nd_res_perm; eassumption. Qed.
+
+
 Theorem nd_k0 pop ffo : sort_nd pop 0 ffo = Some [].
 Proof. reflexivity. Qed.
 
 (* first_front_only: exactly one front, the non-dominated set *)
-Theorem nd_first_front_only pop k :
-  NoDup (map uid pop) -> same_len (map iw pop) -> pop <> [] -> k <> 0 ->
-  exists F, sort_nd pop k true = Some [F] /\ NoDup (map uid F) /\
+Theorem gen_first_front_only pop k fs :
+  NoDup (map uid pop) -> pop <> [] -> k <> 0 ->
+  Forall2 (@Permutation ind) fs (spec_sort pop k true) ->
+  exists F, fs = [F] /\ NoDup (map uid F) /\
             forall x, In x F <-> In x pop /\ forall y, In y pop -> idom y x = false.
 Proof.
-  intros NDu SL NE K. destruct (sort_nd_correct pop k true NDu SL NE) as [fs [E P]].
+  intros NDu NE K P.
   unfold spec_sort in P. destruct (Z.eqb_spec k 0); [congruence|].
   rewrite (spec_fronts_unfold pop NE) in P. cbn [firstn] in P.
   inversion P as [|F G l1 l2 PF P2]; subst. inversion P2; subst.
-  exists F. split; [assumption|]. split.
+  exists F. split; [reflexivity|]. split.
   - apply (Permutation_NoDup (l := map uid (filter (nondominated pop) pop))); [apply Permutation_map, Permutation_sym; assumption|].
     apply NoDup_map_filter. assumption.
   - intro x. split.
@@ -303,8 +327,38 @@ Proof.
     + intro H. apply (Permutation_in _ (Permutation_sym PF)). apply filter_In. rewrite nondominated_true. exact H.
 Qed.
 
+Theorem nd_first_front_only pop k :
+  NoDup (map uid pop) -> same_len (map iw pop) -> pop <> [] -> k <> 0 ->
+  exists F, sort_nd pop k true = Some [F] /\ NoDup (map uid F) /\
+            forall x, In x F <-> In x pop /\ forall y, In y pop -> idom y x = false.
+Proof.
+  intros NDu SL NE K. destruct (sort_nd_correct pop k true NDu SL NE) as [fs [E P]].
+  destruct (gen_first_front_only pop k fs NDu NE K P) as [F [-> R]]. exists F. split; assumption.
+Qed.
+
 (* asked for k individuals: the fronts are, front by front, the shortest non-empty prefix of the
    peeling fronts whose size reaches min(k, n) *)
+Theorem gen_leading_fronts pop k fs :
+  same_len (map iw pop) -> pop <> [] -> k <> 0 ->
+  Forall2 (@Permutation ind) fs (spec_sort pop k false) ->
+  exists j,
+    (j < length (spec_fronts pop))%nat /\
+    Forall2 (@Permutation ind) fs (firstn (S j) (spec_fronts pop)) /\
+    (forall j', (0 < j' <= j)%nat -> ztotal (firstn j' (spec_fronts pop)) < Z.min (zlen pop) k) /\
+    Z.min (zlen pop) k <= ztotal fs.
+Proof.
+  intros SL NE K P.
+  unfold spec_sort in P. destruct (Z.eqb_spec k 0); [congruence|].
+  assert (NEF : spec_fronts pop <> []) by (rewrite (spec_fronts_unfold pop NE); discriminate).
+  destruct (cut_reach_prefix (Z.min (zlen pop) k) (spec_fronts pop) 0 NEF) as [j [Hj [EC [MIN REACH]]]].
+  exists j. rewrite EC in P. split; [assumption|]. split; [assumption|]. split.
+  - intros j' Hj'. specialize (MIN j' Hj'). lia.
+  - assert (T : ztotal fs = ztotal (firstn (S j) (spec_fronts pop))).
+    { unfold ztotal, zlen. rewrite (Permutation_length (forall2_concat_perm _ _ P)). reflexivity. }
+    rewrite T. destruct REACH as [R|R]; [lia|].
+    rewrite R, firstn_all. unfold ztotal, zlen. rewrite (Permutation_length (spec_fronts_partition pop SL)). lia.
+Qed.
+
 Theorem nd_leading_fronts pop k :
   NoDup (map uid pop) -> same_len (map iw pop) -> pop <> [] -> k <> 0 ->
   exists fs j, sort_nd pop k false = Some fs /\
@@ -314,13 +368,5 @@ Theorem nd_leading_fronts pop k :
     Z.min (zlen pop) k <= ztotal fs.
 Proof.
   intros NDu SL NE K. destruct (sort_nd_correct pop k false NDu SL NE) as [fs [E P]].
-  unfold spec_sort in P. destruct (Z.eqb_spec k 0); [congruence|].
-  assert (NEF : spec_fronts pop <> []) by (rewrite (spec_fronts_unfold pop NE); discriminate).
-  destruct (cut_reach_prefix (Z.min (zlen pop) k) (spec_fronts pop) 0 NEF) as [j [Hj [EC [MIN REACH]]]].
-  exists fs, j. rewrite EC in P. split; [assumption|]. split; [assumption|]. split; [assumption|]. split.
-  - intros j' Hj'. specialize (MIN j' Hj'). lia.
-  - assert (T : ztotal fs = ztotal (firstn (S j) (spec_fronts pop))).
-    { unfold ztotal, zlen. rewrite (Permutation_length (forall2_concat_perm _ _ P)). reflexivity. }
-    rewrite T. destruct REACH as [R|R]; [lia|].
-    rewrite R, firstn_all. unfold ztotal, zlen. rewrite (Permutation_length (spec_fronts_partition pop SL)). lia.
+  destruct (gen_leading_fronts pop k fs SL NE K P) as [j R]. exists fs, j. split; assumption.
 Qed.
